@@ -46,8 +46,13 @@ class Mod:
             _nm.canon_consts(self.tree)
         # renamed locals are alpha-renamed back to the names the rules know (lxs/names.py); resolution only, never a verdict
         self.renames = []
+        self.inlined = []
         if not os.environ.get("LXS_NO_RENAME"):
             from . import names
+            if not os.environ.get("LXS_NO_INLINE"):
+                self.inlined = names.inline_new_helpers(self.tree, rel)
+                if self.inlined:
+                    _nm.canon_consts(self.tree)
             self.renames = names.canonicalise(self.tree, rel)
         # `==` / `!=` are read in the orientation the pinned tree uses (or constant on the right)
         if not os.environ.get("LXS_NO_CMPCANON"):
